@@ -587,6 +587,9 @@ def _block_effects(b, bi, pos_field):
             k = None
             if tr is not None and tr.origin and tr.origin[0] == "rvalue" and tr.origin[1]["rv"]["k"] == "binop" and tr.origin[1]["rv"]["op"] in ("Add", "AddWithOverflow"):
                 k = _byte_count(b, tr.origin[1]["rv"]["b"])
+            elif s_["rv"]["k"] == "binop" and s_["rv"]["op"] in ("Add", "AddWithOverflow", "AddUnchecked"):
+                # without overflow checks `pos += n` is a plain `pos = Add(pos, n)`
+                k = _byte_count(b, s_["rv"]["b"])
             adv = None if (k is None or adv is None) else adv + k
     return used, adv
 
